@@ -6,6 +6,8 @@ package main
 //                                  filters, Subscription methods, subscription(), both copies of
 //                                  subscribes() — translated statement by statement
 //   Arith.lean                   : capacity, capacityNonZero, capacityU32 and constants
+//   Pool256.lean / Pool64.lean   : entityPool, bitPool (ecs/pool.go) and lockMask (ecs/util.go), structures
+//                                  and methods, by the imperative translator (imper.go)
 //   Facts.lean                   : fact tables (widths, API surface and lock guards, generic code,
 //                                  map ranges, package variables) as plain Lean data
 //
@@ -309,6 +311,8 @@ func main() {
 		"Build64.lean":  func() (string, []string) { return genBuild(repo, true) },
 		"Arith.lean":    func() (string, []string) { return genArith(repo) },
 		"Facts.lean":    func() (string, []string) { return genFacts(repo) },
+		"Pool256.lean":  func() (string, []string) { return genPools(repo, false) },
+		"Pool64.lean":   func() (string, []string) { return genPools(repo, true) },
 	}
 	names := []string{}
 	for n := range gens {
